@@ -51,7 +51,14 @@ func c01FileContent(r *rand.Rand, g *luaGen) []byte {
 		}
 		return []byte(sb.String())
 	case 14:
-		return nil
+		if r.Intn(2) == 0 {
+			return nil
+		}
+		// a construct cut off by the end of the file: truncate a program at an arbitrary byte, and
+		// sometimes end it in the middle of a string escape / long bracket / annotation
+		p := g.Program(2 + r.Intn(6))
+		p = p[:r.Intn(len(p)+1)]
+		return []byte(p + []string{"", "", "\"abc\\", "'x\\", "[", "[=", "[==[ab", "--[[", "--[==[", "---@", "---@type '", "---@class A :", "0x", "1e", "a.", "a:", "f(", "{", "\"\\x4", "\"\\u{12"}[r.Intn(20)])
 	default:
 		return []byte(tokenMutate(r, g.CyclicAnnotations(), 1+r.Intn(3)))
 	}
@@ -62,6 +69,8 @@ var c01JSONConfigs = []string{
 	`{"BaseDir":"./","ShowWarnFlag":1,"ProjectFiles":["main.lua"],"IgnoreModules":["hive"],"ReferMatchPathFlag":1}`,
 	`{"BaseDir":"./","ShowWarnFlag":1,"ProjectFiles":["f0.lua","d1/f1.lua","nosuch.lua"],"IgnoreFileNameVarFlag":1,"ProtocolVars":["c2s","s2s"],"ProtocolPreIngoreFlag":1}`,
 	`{"BaseDir":"./d1/","ShowWarnFlag":1,"OtherDir":"../d2","IgnoreErrorTypes":[2,4],"OpenErrorTypes":[26,27,28]}`,
+	`{"BaseDir":"./","ShowWarnFlag":1,"OpenErrorTypes":[26,27,28,29]}`,
+	`{"BaseDir":"./","ShowWarnFlag":1,"OpenErrorTypes":[22,23,24,25,26,27,28,29],"ProjectFiles":["f0.lua"]}`,
 	`{"BaseDir":"./","ShowWarnFlag":0}`,
 	`{"ShowWarnFlag":1,"ReferFrameFiles":[{"Name":"import","Type":0,"SuffixFlag":1},{"Name":"include","Type":1,"SuffixFlag":0}],"PathSeparator":"/"}`,
 	`{"ShowWarnFlag":1,"AnntotateSets":[{"FuncName":"NewObject","ParamIndex":1,"SplitFlag":1,"PrefixStr":"U","PrefixStrList":["A","U"],"SuffixStr":"_C"}]}`,
@@ -161,7 +170,7 @@ func genC01(seed int64, tier string) *Scenario {
 	if tier == "thorough" {
 		nops = 10 + r.Intn(70)
 	}
-	reqKinds := []string{"hover", "definition", "references", "rename", "completion", "signatureHelp", "highlight", "documentSymbol", "workspaceSymbol", "varColor", "documentColor", "codeLens", "documentLink", "online"}
+	reqKinds := []string{"hover", "hover", "hover", "definition", "definition", "definition", "references", "references", "rename", "completion", "completion", "completion", "signatureHelp", "signatureHelp", "highlight", "documentSymbol", "workspaceSymbol", "varColor", "documentColor", "codeLens", "documentLink", "online"}
 	randPosIn := func(b []byte) Pos {
 		switch r.Intn(8) {
 		case 0:
